@@ -465,6 +465,37 @@ func (m *SeqMon) End(w *World) {
 			continue
 		}
 		confirmed := c.Client.Confirmed()
+		// the last event of a stream is the delete event: a client that held
+		// the resource when the service deleted it has been told by now
+		if !m.Relaxed {
+			for rid := range confirmed {
+				key := ridKey(w, c, rid)
+				deletedAt := 0
+				for _, e := range w.Svc.Events {
+					if e.Key == key && e.Event == "delete" {
+						deletedAt = e.Time
+					}
+				}
+				if deletedAt == 0 {
+					continue
+				}
+				handed, told := 0, false
+				for _, ev := range c.Client.EventLog {
+					if ev.RID != rid {
+						continue
+					}
+					if ev.Event == "+hand" {
+						handed = ev.At
+					}
+					if ev.Event == "delete" && ev.At >= deletedAt {
+						told = true
+					}
+				}
+				if handed != 0 && handed < deletedAt && !told {
+					w.Fail("C03", "delete-not-delivered", "%s: holds %s since t=%d, the service deleted it at t=%d, but no delete event was delivered", c.Label, rid, handed, deletedAt)
+				}
+			}
+		}
 		for rid, cr := range c.Client.Store {
 			if cr.Kind == "error" || cr.Deleted {
 				continue
